@@ -122,6 +122,9 @@ type Case struct {
 	// Gen: generated composition programs (verif/internal/compose), available to the steps as
 	// gen0, gen1, ... Join: the programs defined by the case live on ONE engine over the union
 	// of their files when that union is conflict-free (see joinable), else on engines of their own.
+	// Md: mode "markdown" - documents rendered in sequence by one markdown renderer (md_test.go)
+	Md []MdStep `json:"md,omitempty"`
+
 	Gen  []compose.Case `json:"gen,omitempty"`
 	Join bool           `json:"join,omitempty"`
 
@@ -825,6 +828,8 @@ func check(c Case) error {
 	switch c.Mode {
 	case "rebase":
 		return rebase()
+	case "markdown":
+		return checkMarkdown(c)
 	case "", "history", "probe":
 	default:
 		return fmt.Errorf("unknown mode %q", c.Mode)
@@ -1021,6 +1026,15 @@ func classify(c Case) (bool, []string) {
 	set := map[string]bool{"mode=" + mode: true}
 	if mode == "rebase" {
 		return true, []string{"mode=rebase"}
+	}
+	if mode == "markdown" {
+		nt := mdClasses(c, set)
+		out := make([]string, 0, len(set))
+		for k := range set {
+			out = append(out, k)
+		}
+		sort.Strings(out)
+		return nt, out
 	}
 	set[fmt.Sprintf("len=%d", len(c.Steps))] = true
 	if c.Shared {
@@ -1486,6 +1500,15 @@ func TestProp(t *testing.T) {
 			each("kept", Case{Steps: []Step{st(eKeepLoad, 0, 2), st("load", 0, 1), st(eKeepLoad, 0, 1)}})
 		}
 	}
+	// markdown: all ordered pairs of documents as A, B, A (x2) on one renderer, through
+	// RenderBytes and through Load + Render
+	for _, a := range mdNames {
+		for _, bb := range mdNames {
+			for _, via := range []string{"bytes", "load"} {
+				each("markdown-pairs", Case{Mode: "markdown", Md: []MdStep{{Doc: a, Via: via}, {Doc: bb, Via: via}, {Doc: a, Via: via, K: 2}, {Doc: bb, Via: "bytes"}}})
+			}
+		}
+	}
 	// other engines in the process: every program x one entry (rotating), a render, then one after
 	// each kind of unrelated engine was created and used, then all of them
 	for pi, p := range named {
@@ -1664,6 +1687,7 @@ func TestProp(t *testing.T) {
 	run.Rapid(t, rec, "hazard", genHazard, classify, check)
 	run.Rapid(t, rec, "compose", genCompose, classify, check)
 	run.Rapid(t, rec, "edits", genEdits, classify, check)
+	run.Rapid(t, rec, "markdown", genMarkdown, classify, check)
 
 	// the whole table once more, on fresh engines, after everything else ran
 	if run.First() {
